@@ -7,6 +7,7 @@
   about that algorithm (`Heap.pop_ordered`), not an assumption.
 -/
 import IpfixModel.Lemmas.Sched
+import IpfixModel.Lemmas.SchedOrder
 import IpfixModel.Spec.C06
 namespace Ipfix.C06
 open Agg
@@ -63,6 +64,15 @@ theorem pop_is_earliest {a a' : Array Item} {x : Item} (h : Heap.Ordered Item.de
     (hp : Heap.pop Item.deadline a = some (x, a')) :
     Heap.Ordered Item.deadline a' ∧ (∀ y ∈ a'.toList, x.deadline ≤ y.deadline) ∧ x = a[0]! :=
   Heap.pop_ordered Item.deadline h hp
+
+/-- earliest deadline first, for a whole scan: the flows handed to the callback during one
+    ForAllExpiredFlowRecordsDo are items of the queue the scan started with, handed over in
+    non-decreasing order of the deadline they were queued with (the heap only loses items during
+    the loop: re-armed and retried flows wait in a deferred list until the loop is over) -/
+theorem callbacks_earliest_deadline_first (s : State) (fail : Nat → Bool) (ra : Bool) (h : Sched s) :
+    ∃ its : List Item, (scan s fail ra).2.callbacks.map (·.1) = its.map (·.key) ∧
+      (∀ it ∈ its, it ∈ s.pq.toList) ∧ its.Pairwise (fun a b => a.deadline ≤ b.deadline) :=
+  scan_callbacks_ordered s fail ra h
 
 /-! ## Refused records
 
@@ -125,5 +135,10 @@ example : let s := [Op.record r1, .adv 100, .scan [] false].foldl step { activeT
 /-- D7: the callback fails -/
 example : let s := [Op.record r1, .adv 300, .scan [1] false].foldl step { activeT := 100, inactiveT := 250 }
     s.flows.map (·.1) = [1] ∧ s.pq.toList.map (·.key) = [1] := by decide
+
+/-- earliest first on a concrete scan: flow 2 arrives 10 ms after flow 1, both are inactive-expired at
+    t = 400; flow 1 (deadline 100) is handed over before flow 2 (deadline 110) -/
+example : let s := [Op.record r1, .adv 10, .record { r1 with key := 2 }, .adv 390].foldl step { activeT := 100, inactiveT := 250 }
+    (scan s (fun _ => false) false).2.callbacks.map (·.1) = [1, 2] := by decide
 
 end Ipfix.C06
